@@ -351,6 +351,15 @@ def normMsg (m : String) : String :=
 
 def showLoc (l : Loc) : String := stringOfBytes l.file ++ ":" ++ toString l.line
 
+/-- A name as it can be compared through Rust's `{:?}` rendering of a lossily decoded string:
+    printable ASCII other than `"` and `\\` stays, every maximal run of other bytes (escapes,
+    non-ASCII characters, U+FFFD replacements) becomes one `?`. -/
+def plainName : Bytes → Bool → Bytes
+  | [], _ => []
+  | c :: r, inRun =>
+    if 32 ≤ c.toNat && c.toNat ≤ 126 && c != 34 && c != 92 then c :: plainName r false
+    else if inRun then plainName r true else 63 :: plainName r true
+
 def showErr : LoadErr → String
   | .parse file msg _ (.ok v) =>
     s!"perr {hexOfBytes file} {v.line} {v.col} {hexOfBytes v.excerpt} {hexOfBytes (bytesOfString (normMsg msg))}"
@@ -359,7 +368,7 @@ def showErr : LoadErr → String
   | .dupOutput name here there =>
     -- the message carries the path and file names as raw bytes (no Latin-1 / UTF-8 round trip)
     let loc (l : Loc) : Bytes := l.file ++ bytesOfString (":" ++ toString l.line)
-    "err " ++ hexOfBytes (bytesOfString "dupout " ++ name ++ [32] ++ loc here ++ [32] ++ loc there)
+    "err " ++ hexOfBytes (bytesOfString "dupout " ++ plainName name false ++ [32] ++ loc here ++ [32] ++ loc there)
   | .other k =>
     if k.startsWith "panic: " then "panic " ++ hexOfBytes (bytesOfString (k.drop 7).toString)
     else "err " ++ hexOfBytes (bytesOfString k)
@@ -726,8 +735,11 @@ def handle (case impl : List String) : String :=
       -- C16/C09: no include note survives in what is shown; every other line does
       let shown := match impl.getLast? with | some x => (bytesOfHex x).getD [] | none => []
       let noNoteShown := (Task.splitNL shown []).all (fun l => !(Task.notePrefix.isPrefixOf l))
+      -- C09: every file a note names is reported as a dependency (whatever bytes its name has)
+      let reported : List Bytes := ((impl.drop 2).dropLast).filterMap bytesOfHex
+      let allReported := impl.head? == some "ok" && reported == incs
       s!"ok {incs.length}" ++ String.join (incs.map (fun i => " " ++ hexOfBytes i)) ++ " " ++ hexOfBytes out
-        ++ mons [("noNoteShown", noNoteShown)]
+        ++ mons [("noNoteShown", noNoteShown), ("notesAllReported", allReported)]
     | none => "bad-hex"
   | ["lastline", h] =>
     match bytesOfHex h with
@@ -759,6 +771,16 @@ def handle (case impl : List String) : String :=
   | ["n2bin", "rspfile"] =>
     let want := "code=0 content=" ++ hexOfBytes (bytesOfString "-a  in1 in2 \"q\" $x")
     want ++ mons [("rspfileExact", " ".intercalate impl == want)]
+  | ["n2bin", "diag", tag, _, _, _] =>
+    -- what the binary must do with a string it cannot print as it stands: a diagnostic and exit
+    -- status 1 where the manifest / command line is in error, the ordinary outcome otherwise;
+    -- never a panic (exit status 101, a signal, or "panicked" on the standard error)
+    let want :=
+      if tag == "dupwithin" || tag == "depfile" then "code=0 error=0 panic=0"
+      else if tag == "desc" || tag == "cmd" then "code=1 error=0 panic=0"
+      else "code=1 error=1 panic=0"
+    want ++ mons [("binNoPanic", impl.getLast? == some "panic=0" && impl.head? != some "code=101" && impl.head? != some "code=-1"),
+                  ("binDiagnostic", " ".intercalate impl == want)]
   | ["n2bin", "exit", "ok"] => "code=0"
   | ["n2bin", "exit", _] => "code=1"
   | ["n2bin", "rsprewrite", _, h] =>
